@@ -227,9 +227,6 @@ func (s *S3Proxy) ListObjectVersions(ctx context.Context, input *s3.ListObjectVe
 	if input.VersionIdMarker != nil && *input.VersionIdMarker == "" {
 		input.VersionIdMarker = nil
 	}
-	if input.MaxKeys != nil && *input.MaxKeys == 0 {
-		input.MaxKeys = nil
-	}
 	if input.ExpectedBucketOwner != nil && *input.ExpectedBucketOwner == "" {
 		input.ExpectedBucketOwner = nil
 	}
@@ -1174,9 +1171,6 @@ func (s *S3Proxy) ListObjects(ctx context.Context, input *s3.ListObjectsInput) (
 	if input.Marker != nil && *input.Marker == "" {
 		input.Marker = nil
 	}
-	if input.MaxKeys != nil && *input.MaxKeys == 0 {
-		input.MaxKeys = nil
-	}
 	if input.Prefix != nil && *input.Prefix == "" {
 		input.Prefix = nil
 	}
@@ -1210,9 +1204,6 @@ func (s *S3Proxy) ListObjectsV2(ctx context.Context, input *s3.ListObjectsV2Inpu
 	}
 	if input.ExpectedBucketOwner != nil && *input.ExpectedBucketOwner == "" {
 		input.ExpectedBucketOwner = nil
-	}
-	if input.MaxKeys != nil && *input.MaxKeys == 0 {
-		input.MaxKeys = nil
 	}
 	if input.Prefix != nil && *input.Prefix == "" {
 		input.Prefix = nil
